@@ -118,6 +118,46 @@ def build(seed, i, cfg, rg):
     kind = cfg["kind"]
     entry = G.pick(rg, ENTRY_DICT if kind == "dict" else ENTRY_LIST)
     steps = []
+    special = rg.random()
+    ns = lib.load()
+    buffered_family = ns.families[cfg["family"]]["buffered"]
+    if special < 0.10:
+        # TYPED PAIR: an equal-but-differently-typed value assigned over the stored one (plain assignment, no merge);
+        # for buffered families the second assignment happens inside obj.buffered, so only the flush can carry it
+        a, b = G.pick(rg, [(1, True), (True, 1), (0, False), (False, 0), (2, 2.0), (3.0, 3), (1.0, True), (2 ** 70, float(2 ** 70)), (-0.0, 0), (0, -0.0)])
+        steps.append({"t": "new_res", "family": cfg["family"], "kind": kind, "init": {"p": a} if kind == "dict" else [a]})
+        steps.append({"t": "new_obj", "rid": 0, "wc": cfg["wc"]})
+        if buffered_family and rg.random() < 0.7:
+            steps.append({"t": "enter", "ctx": "obj" if rg.random() < 0.5 else "backend", "oid": 0, "family": cfg["family"], "kind": kind})
+        steps.append({"t": "op", "hid": 0, "name": "setitem", "args": ["p" if kind == "dict" else 0, b]})
+        if steps[-2]["t"] == "enter":
+            steps.append({"t": "exit"})
+        steps.append({"t": "restart", "rid": 0, "wc": cfg["wc"]})
+        steps.append({"t": "op_last_root", "name": "call"})
+        return steps, [a, b], "typed_pair"
+    if special < 0.16 and kind == "dict":
+        # a stored null is a value: setdefault must not replace it
+        steps.append({"t": "new_res", "family": cfg["family"], "kind": "dict", "init": None})
+        steps.append({"t": "new_obj", "rid": 0, "wc": cfg["wc"]})
+        steps.append({"t": "op", "hid": 0, "name": "setitem", "args": ["nul", None]})
+        steps.append({"t": "op", "hid": 0, "name": "setdefault", "args": ["nul", v if v is not None else 5]})
+        steps.append({"t": "restart", "rid": 0, "wc": cfg["wc"]})
+        steps.append({"t": "op_last_root", "name": "call"})
+        return steps, v, "null_then_setdefault"
+    if special < 0.26 and isinstance(v, (dict, list)):
+        # a container stored OVER an existing container (same or other kind) through the merge entry points
+        old = G.pick(rg, [{}, [], {"o": 1.5}, [2.5]])
+        init = {"pos": old, "z": 0.5} if kind == "dict" else [old, 0.5]
+        steps.append({"t": "new_res", "family": cfg["family"], "kind": kind, "init": init})
+        steps.append({"t": "new_obj", "rid": 0, "wc": cfg["wc"]})
+        if kind == "dict":
+            how = G.pick(rg, [("update", [{"pos": v}]), ("reset", [{"pos": v, "z": 0.5}]), ("setitem", ["pos", v]), ("update_kwargs", [None, {"pos": v}])])
+        else:
+            how = G.pick(rg, [("reset", [[v, 0.5]]), ("setitem", [0, v])])
+        steps.append({"t": "op", "hid": 0, "name": how[0], "args": how[1]})
+        steps.append({"t": "restart", "rid": 0, "wc": cfg["wc"]})
+        steps.append({"t": "op_last_root", "name": "call"})
+        return steps, v, "over_container:" + how[0]
     init = None
     hid = 0
     path_kind = kind
